@@ -76,6 +76,14 @@ fn cases(nkeys: usize) -> Vec<Case> {
         // every order of the -i arguments
         for po in perms(&params) {
             out.push(Case { data: data.clone(), params: po.clone(), dup: None });
+            // a parameter file that is an empty map, at every position among the others (it adds nothing and must lose nothing)
+            if po.len() < 3 {
+                for at in 0..=po.len() {
+                    let mut pe = po.clone();
+                    pe.insert(at, vec![]);
+                    out.push(Case { data: data.clone(), params: pe, dup: None });
+                }
+            }
         }
         // overlap variants: one key also present in another source
         for k in 0..nkeys {
@@ -122,7 +130,7 @@ pub fn run(tier: &str) -> i32 {
     let cs = cases(nkeys);
     // `-2data`: the same data given as two files (every file must get the merged verdicts); `-dir`: the parameter files in
     // a directory that also holds files of other kinds sorting before, between and after them
-    let modes = ["plain", "structured", "stdin", "payload-plain", "payload-structured", "plain-2data", "structured-2data", "plain-dir", "structured-dir", "plain-samename", "structured-samename"];
+    let modes = ["plain", "structured", "stdin", "payload-plain", "payload-structured", "plain-2data", "structured-2data", "plain-dir", "structured-dir", "plain-samename", "structured-samename", "plain-dotname", "structured-dotname"];
     // baseline: the pre-merged document (any key order gives the same verdicts: checked by using both orders)
     let all: Vec<usize> = (0..nkeys).collect();
     let n = cs.len() * modes.len();
@@ -161,7 +169,7 @@ pub fn run(tier: &str) -> i32 {
         let mut argv = sv(&["validate"]);
         let mut stdin = String::new();
         match mode {
-            "plain" | "structured" | "plain-dir" | "structured-dir" | "plain-samename" | "structured-samename" => {
+            "plain" | "structured" | "plain-dir" | "structured-dir" | "plain-samename" | "structured-samename" | "plain-dotname" | "structured-dotname" => {
                 argv.extend(vec!["-r".into(), rp.clone(), "-d".into(), put("c17/data.json", &data_txt)]);
             }
             "plain-2data" | "structured-2data" => {
@@ -194,6 +202,10 @@ pub fn run(tier: &str) -> i32 {
                 // every parameter file is called params.json, each in its own directory
                 argv.push("-i".into());
                 argv.push(put(&format!("c17/q{}/params.json", pi), &t));
+            } else if mode.ends_with("-dotname") {
+                // parameter files named explicitly whose names start with a dot
+                argv.push("-i".into());
+                argv.push(put(&format!("c17/.p{}.json", pi), &t));
             } else {
                 argv.push("-i".into());
                 argv.push(put(&format!("c17/p{}.json", pi), &t));
